@@ -233,6 +233,8 @@ pub struct Stats {
     pub depth_changes: u32,
     /// polls performed by inline tasks from inside a waker call
     pub inline_polls: u32,
+    /// an input stream woke its last waker from its destructor
+    pub stream_drop_wakes: u32,
     /// an input stream woke its own waker from inside poll_next
     pub stream_self_wakes: u32,
     /// a stream ended because the library dropped the stream that owned its sender (chained pipes)
